@@ -45,6 +45,7 @@ TraceSpec == TInit /\ [][TNext]_<<d, l, rec>>
 \* rec.named[i] / rec.typed[i] / rec.ts[i] : index (1-based, 0 = nil) of the value the lookup for value i returned
 C15 == rec.ev = "obs" =>
    LET dd == rec.desc IN
+   /\ rec.panic = ""
    /\ rec.ok
    /\ rec.values = ExpValues(dd)
    /\ \A i \in DOMAIN dd.vals :
